@@ -1716,11 +1716,19 @@ theorem liftF_ok {r : Except Num.MathErr F64} {val : Item} (h : Num.liftF r = .o
   | error e => simp [Num.liftF, Except.map] at h
   | ok x => simp [Num.liftF, Except.map] at h; exact ⟨x, h.symm⟩
 
+theorem int64Math_out {a b : Int} {op : BinOp} {val : Item} (h : Num.int64Math a b op = .ok val) :
+    (∃ i, val = .int i) ∨ (∃ x, val = .flt x) := by
+  unfold Num.int64Math at h
+  split at h
+  · exact Or.inr (liftF_ok h)
+  · exact Or.inl (liftI_ok h)
+
 theorem mathOpI_out {a : Int} {r : Item} {op : BinOp} {val : Item} (h : Num.mathOpI a r op = .ok val) :
     (∃ i, val = .int i) ∨ (∃ x, val = .flt x) := by
   unfold Num.mathOpI at h
   repeat' split at h
   all_goals first
+    | exact int64Math_out h
     | exact Or.inl (liftI_ok h)
     | exact Or.inr (liftF_ok h)
     | cases h
